@@ -11,6 +11,7 @@ Decided (proto/sym walk of SpikeSelector):
       each contributing the whole interval bounds[i:i+2]
   S2  membership in kept chunks: parity (== 1) of searchsorted(kept bounds, t, side='right')
   U1  save_spikes_subset_waveforms uses the selector over all templates with chunk restriction
+  +   vectorised kept-chunk form b[S], b[S + 1] with S = np.arange(0, n_chunks, step): start, stop and step judged like the range() loop (array wrappers of the grid unwrapped)
 Not decided: the distribution of the random choice, value-level counts.
 """
 import ast
@@ -280,8 +281,24 @@ def cdiv_norm(e):
 
 
 # step: max(1, ceil-division(n_chunks, kept))
+class _Unwrap(ast.NodeTransformer):
+    """len(np.asarray(b)) == len(b), np.asarray(b).shape[0] == len(b): the array wrapper of the supplied grid does not change its length"""
+    def visit_Call(self, n):
+        self.generic_visit(n)
+        if dotted(n.func) in ('np.asarray', 'np.array', 'np.asanyarray', 'list', 'tuple') and len(n.args) == 1 and not n.keywords:
+            return n.args[0]
+        return n
+
+    def visit_Subscript(self, n):
+        self.generic_visit(n)
+        if isinstance(n.value, ast.Attribute) and n.value.attr == 'shape' and const_value(n.slice) == 0:
+            return ast.Call(func=ast.Name(id='len', ctx=ast.Load()), args=[n.value.value], keywords=[])
+        return n
+
+
 def txt(x):
-    return unparse(x).replace(' ', '')
+    import copy as _copy
+    return unparse(_Unwrap().visit(_copy.deepcopy(x))).replace(' ', '')
 
 def divform(e):
     """-> ('ceil'|'floor', numerator text, denominator text) or None"""
@@ -337,6 +354,29 @@ def _vector_form(ctx, fi, bounds_p, kept_p):
     e_ok = s_ok and any(PE.m(f_ % b_, e_e) for b_ in base for f_ in ('%s[1:][::E_step]', '%s[1::E_step]'))
     vocab = lambda x: {n.id for n in ast.walk(x) if isinstance(n, ast.Name)} <= {bounds_p, kept_p, 'np', 'len', 'max', 'int', 'ceil', 'floor', 'math', 'float'} and \
         not any(isinstance(n, ast.Call) and (dotted(n.func) or '') not in ('np.asarray', 'np.array', 'len', 'max', 'int', 'ceil', 'floor', 'math.ceil', 'math.floor', 'np.ceil', 'np.floor', 'float') for n in ast.walk(x))
+    # fancy-index form: b[S], b[S + 1] with S = np.arange(start, stop, step) - the vectorised range(start, stop, step) loop
+    PF = Pat()
+    f_ok = (not s_ok) and any(PF.m('%s[E_idx]' % b_, s_e) for b_ in base) and any(Pat(binds=PF.b).m(f_ % b_, e_e) for b_ in base for f_ in ('%s[E_idx + 1]', '%s[1 + E_idx]', '%s[1:][E_idx]'))
+    if f_ok:
+        idx = s_e.slice
+        PA = Pat()
+        nch = 'len(%s)-1' % bounds_p
+        if PA.any(['np.arange(E_a0, E_a1, E_step)', 'np.arange(E_a0, E_a1, E_step, REST)', 'np.array(range(E_a0, E_a1, E_step))', 'np.asarray(range(E_a0, E_a1, E_step))',
+                   'list(range(E_a0, E_a1, E_step))', 'range(E_a0, E_a1, E_step)'], idx):
+            call = idx if dotted(idx.func) in ('np.arange', 'range') else idx.args[0]
+            a0, a1, a2 = call.args[:3]
+            t0, t1 = unparse(a0).replace(' ', ''), unparse(a1).replace(' ', '')
+            n_forms = (nch, 'len(np.asarray(%s))-1' % bounds_p, 'len(np.array(%s))-1' % bounds_p, '%s.shape[0]-1' % bounds_p, 'np.asarray(%s).shape[0]-1' % bounds_p, 'np.asarray(%s).size-1' % bounds_p)
+            ctx.tri(t0 == '0', const_value(a0) is not None and t0 != '0', 'C17.S1', fi, a0, 'kept chunks start with the first chunk', 'kept chunks start at %s, not at the first chunk' % t0, 'start of the kept-chunk indices not recognised')
+            ctx.tri(t1 in n_forms, (t1 not in n_forms) and vocab(a1), 'C17.S1', fi, a1, 'stride runs over all n_chunks = len(bounds) - 1 chunks',
+                    'the kept-chunk indices run up to %s, not to n_chunks = len(bounds) - 1: the last stride position is dropped (or a non-existing chunk is addressed) for some chunk counts' % t1,
+                    'stop of the kept-chunk indices `%s` not recognised' % t1)
+            ctx.holds('C17.S1', fi, 'each kept chunk contributes its whole interval (bounds[i], bounds[i+1])', e_e)
+            ctx.holds('C17.S1', fi, 'kept bounds are stored as the flat list of (start, end) pairs, multiplicity preserved', fin[0])
+            judge_stride(ctx, fi, a2, divform, nch, kept_p)
+        else:
+            ctx.undecided('C17.S1', fi, 'indices of the kept chunks `%s` not recognised' % unparse(idx)[:60], fin[0])
+        return
     if s_ok and e_ok:
         ctx.holds('C17.S1', fi, 'kept chunks start with the first chunk', s_e)
         ctx.holds('C17.S1', fi, 'stride runs over all n_chunks = len(bounds) - 1 chunks', s_e)
